@@ -164,79 +164,126 @@ def _sub(r, pool, kmax=2):
 
 
 def gen_case(r):
+    """a command line, then a URL + link record biased to the boundaries of the options chosen.  Options are sparse (about
+    two restrictive ones per case) and the URL/record start from an in-scope baseline that is perturbed in 0-2 dimensions,
+    so that passing verdicts, single-filter failures and only-span-hosts failures are all frequent."""
     argv = ['http://a.example/d/']
-    opts = {}
-    if r.random() < 0.7:
+    recursive = r.random() < 0.85
+    if recursive:
         argv.append('-r')
-        opts['r'] = True
     lvl = None
-    if r.random() < 0.6:
+    if r.random() < 0.5:
         lvl = r.choice([0, 1, 1, 2, 2, 3, 'inf'])
         argv += ['-l', str(lvl)]
-    if r.random() < 0.45:
+    preq = r.random() < 0.5
+    if preq:
         argv.append('-p')
     prl = None
-    if r.random() < 0.35:
+    if r.random() < 0.3:
         prl = r.choice([0, 1, 1, 2, 'inf'])
         argv += ['--page-requisites-level', str(prl)]
-    if r.random() < 0.3:
-        argv.append('--no-parent')
-    if r.random() < 0.2:
-        argv += ['--domains', _sub(r, ['a.example', 'example', 'sub.a.example', 'b.example', 'org'])]
-    if r.random() < 0.2:
-        argv += ['--exclude-domains', _sub(r, ['a.example', 'b.example', 'sub.a.example', 'xa.example'])]
-    if r.random() < 0.2:
-        argv += ['--hostnames', _sub(r, HOSTS, 3)]
-    if r.random() < 0.15:
-        argv += ['--exclude-hostnames', _sub(r, HOSTS, 2)]
     tries = None
-    if r.random() < 0.5:
+    if r.random() < 0.4:
         tries = r.choice([0, 1, 2, 3, 'inf'])
         argv += ['--tries', str(tries)]
-    if r.random() < 0.2:
-        argv += ['--accept', _sub(r, SUFFIXES)]
-    if r.random() < 0.2:
-        argv += ['--reject', _sub(r, SUFFIXES)]
-    if r.random() < 0.2:
-        argv += ['--accept-regex', r.choice(REGEXES)]
-    if r.random() < 0.2:
-        argv += ['--reject-regex', r.choice(REGEXES)]
-    if r.random() < 0.2:
-        argv += ['--include-directories', _sub(r, DIRS)]
-    if r.random() < 0.2:
-        argv += ['--exclude-directories', _sub(r, DIRS)]
+    if r.random() < 0.25:
+        argv.append('--no-parent')
+    restrictive = [
+        lambda: ['--domains', _sub(r, ['a.example', 'example', 'sub.a.example', 'b.example', 'org'])],
+        lambda: ['--exclude-domains', _sub(r, ['b.example', 'sub.a.example', 'xa.example', 'a.example'])],
+        lambda: ['--hostnames', _sub(r, HOSTS, 3)],
+        lambda: ['--exclude-hostnames', _sub(r, HOSTS[1:], 2)],
+        lambda: ['--accept', _sub(r, SUFFIXES)],
+        lambda: ['--reject', _sub(r, SUFFIXES)],
+        lambda: ['--accept-regex', r.choice(REGEXES)],
+        lambda: ['--reject-regex', r.choice(REGEXES)],
+        lambda: ['--include-directories', _sub(r, DIRS)],
+        lambda: ['--exclude-directories', _sub(r, DIRS)],
+        lambda: ['--https-only'],
+    ]
+    for f in r.sample(restrictive, r.choice([0, 0, 1, 1, 1, 2, 2, 3])):
+        argv += f()
     t = r.random()
     if t < 0.15:
         argv.append('--span-hosts')
-    elif t < 0.45:
+    elif t < 0.4:
         argv += ['--span-hosts-allow', r.choice(['page-requisites', 'linked-pages', 'page-requisites,linked-pages'])]
-    if r.random() < 0.08:
-        argv.append('--https-only')
     if r.random() < 0.1:
         argv.append('--follow-ftp')
-    # the URL and its record, biased to the boundaries of the options chosen
-    if r.random() < 0.06:
+    # baseline: a link at depth 1 below the start directory on the start host
+    lv_n = lvl if isinstance(lvl, int) and lvl > 0 else 5
+    prl_n = prl if isinstance(prl, int) and prl > 0 else 5
+    tr_n = tries if isinstance(tries, int) and tries > 0 else 20
+    scheme = 'https' if '--https-only' in argv else 'http'
+    host, path = 'a.example', r.choice(['/d/x.html', '/d/e/y.png', '/d/', '/d/e/', '/d/a.b/c', '/d/e/f/g.css'])
+    inline_wanted = preq and r.random() < 0.4
+    rec = {'level': r.choice([0, 1, 1, lv_n]) if recursive or inline_wanted else 0,
+           'inline_level': r.choice([1, prl_n]) if inline_wanted else r.choice([None, None, 0]),
+           'try_count': r.choice([0, 0, tr_n - 1]),
+           'parent_url': '%s://a.example/d/' % scheme, 'root_url': '%s://a.example/d/' % scheme}
+    if inline_wanted:
+        rec['level'] = r.choice([1, lv_n, lv_n + 1, lv_n + 2])
+    port = ''
+    for _ in range(r.choice([0, 0, 1, 1, 1, 2])):
+        dim = r.choice([0, 1, 2, 2, 3, 3, 3, 4, 4, 5, 5, 5, 6, 7, 7, 8, 9])
+        if dim == 0:
+            host = r.choice(HOSTS)
+        elif dim == 1:
+            scheme = r.choice(['http', 'https', 'ftp'])
+        elif dim == 2:
+            path = r.choice(PATHS)
+        elif dim == 3:
+            rec['level'] = r.choice([0, lv_n, lv_n + 1, lv_n + 2, lv_n + 3, r.randrange(0, 8)])
+        elif dim == 4:
+            rec['inline_level'] = r.choice([None, 0, 1, prl_n, prl_n + 1, r.randrange(0, 7)])
+        elif dim == 5:
+            rec['try_count'] = max(0, r.choice([tr_n - 1, tr_n, tr_n + 1, r.randrange(0, 4)]))
+        elif dim == 6:
+            rec['parent_url'] = None if r.random() < 0.3 else _url(r, host=r.choice(HOSTS[:3]))
+        elif dim == 7:
+            rec['root_url'] = None if r.random() < 0.3 else _url(r, host=r.choice(HOSTS[:2]), path=r.choice(['/d/', '/d/e/', '/', '/d/index.html', '/d']))
+        elif dim == 8:
+            port = r.choice([':8080', ':80', ':443'])
+        else:
+            host = r.choice(['b.example', 'sub.a.example', 'xa.example'])     # only the host set differs
+    url = '%s://%s%s%s' % (scheme, host, port, path)
+    if r.random() < 0.03:
         url = r.choice(OTHER_URLS)
-    else:
-        url = _url(r, host=r.choice(HOSTS[:3]) if r.random() < 0.6 else None)
-    lv_n = lvl if isinstance(lvl, int) else 5
-    level = r.choice([0, 1, lv_n, lv_n + 1, lv_n + 2, lv_n + 3, r.randrange(0, 7)])
-    prl_n = prl if isinstance(prl, int) else 5
-    inline = r.choice([None, None, 0, 1, prl_n, prl_n + 1, r.randrange(0, 7)])
-    tr_n = tries if isinstance(tries, int) else 20
-    try_count = max(0, r.choice([0, 0, tr_n - 1, tr_n, tr_n + 1, r.randrange(0, 4)]))
-    parent = None if r.random() < 0.15 else _url(r, host=r.choice(HOSTS[:3]))
-    root = None if r.random() < 0.25 else _url(r, host=r.choice(HOSTS[:2]), path=r.choice(['/d/', '/d/e/', '/', '/d/index.html', '/d']))
-    hostnames = r.choice([['a.example'], ['a.example'], ['a.example', 'b.example'], [], ['sub.a.example']])
-    return {'argv': argv, 'hostnames': hostnames, 'url': url,
-            'record': {'level': level, 'inline_level': inline, 'try_count': try_count, 'parent_url': parent, 'root_url': root}}
+    hostnames = r.choice([['a.example'], ['a.example'], ['a.example'], ['a.example', 'b.example'], [], ['sub.a.example']])
+    return {'argv': argv, 'hostnames': hostnames, 'url': url, 'record': rec}
 
 
 # ---- Coq rendering ----
+POOL = None          # per generated file: string -> name (literals are what makes coqc slow; each distinct string is written once)
+
+
 def cstr(s):
     if s == '':
         return '([] : str)'
-    return '[%s]' % '; '.join(str(ord(c)) for c in s)
+    if POOL is not None:
+        if s not in POOL:
+            POOL[s] = 'S%d' % len(POOL)
+        return POOL[s]
+    return cstr_lit(s)
+
+
+def cstr_lit(s):
+    if all(ord(c) < 256 for c in s):
+        return '(unhex "%s")' % ''.join('%02x' % ord(c) for c in s)
+    return '(unhex6 "%s")' % ''.join('%06x' % ord(c) for c in s)
+
+
+def cases_file(items_fn):
+    """render one cases.v: items_fn() returns the check expressions (rendered while the string pool is active)"""
+    global POOL
+    POOL = {}
+    try:
+        items = items_fn()
+        pool = ''.join('Definition %s : list N := %s.\n' % (name, cstr_lit(s)) for s, name in POOL.items())
+    finally:
+        POOL = None
+    return (HEADER + pool + 'Definition checks : list bool := [\n  ' + ';\n  '.join(items) +
+            '].\nEval vm_compute in (failing checks).\n')
 
 
 def cbool(b):
@@ -296,6 +343,14 @@ def complete_tables(res, case):
         for dd in lst or []:
             n, p = _slashed(u['path'] or ''), _slashed(dd)
             t['fnmatchcase'].append([n, p, fnmatch.fnmatchcase(n, p)])
+    for k in ('re_search', 'translate', 'fnmatchcase'):     # the same call is recorded at every consult
+        seen, out = set(), []
+        for e in t[k]:
+            key = tuple(e[:-1])
+            if key not in seen:
+                seen.add(key)
+                out.append(e)
+        t[k] = out
 
 
 def _ascii(x):
@@ -327,9 +382,10 @@ def coq_case(case, res):
         lib, a, hs, u, r, ' && '.join('(%s)' % c for c in checks)))
 
 
-HEADER = '''From Coq Require Import List NArith ZArith Bool.
+HEADER = '''From Coq Require Import List NArith ZArith Bool String.
 From Wpull Require Import Lib.Hex Lib.MiniPy Spec.Scope Gen.UrlFilter Model.FilterEval.
 Import ListNotations.
+Open Scope string_scope.
 Open Scope N_scope.
 '''
 
@@ -381,9 +437,7 @@ def run_differential(ctx, r, n):
     per = 60
     bodies = []
     for i in range(0, len(keep), per):
-        items = [coq_case(c, res) for c, res in keep[i:i + per]]
-        bodies.append(HEADER + 'Definition checks : list bool := [\n  ' + ';\n  '.join(items) +
-                      '].\nEval vm_compute in (failing checks).\n')
+        bodies.append(cases_file(lambda: [coq_case(c, res) for c, res in keep[i:i + per]]))
     outs = common.coq_eval_many(bodies, par=6)
     for bi, (rc, out) in enumerate(outs):
         fails = common.parse_vm_list(out) if rc == 0 else None
